@@ -482,7 +482,10 @@ func TestVerif_C16_h2frames(t *testing.T) {
 				ssid += 2
 				continue
 			}
-			ans := c16H2ErrKind(err)
+			ans := "err:outside"
+			if verifh.C01IsASCII(effHost) {
+				ans = c16H2ErrKind(err)
+			}
 			count("seq:" + ans)
 			s.Case(verifh.C01FieldLine("h2", tc), ans, true, "", false, human)
 			continue
